@@ -46,8 +46,8 @@ EXTENDS Integers, Sequences, FiniteSets, TLC
 Points == <<
   "-1e400", "-1e39", "-3.4028235e38",
   "-9223372036854775809", "-9223372036854775808", "-2147483649", "-2147483648",
-  "-32769", "-32768", "-129", "-128", "-1", "0", "1e-50", "0.1", "0.5", "1", "1.5", "2", "3",
-  "5", "7", "10", "100", "127", "128", "255", "256", "300", "32767", "32768", "65535", "65536",
+  "-32769", "-32768", "-129", "-128", "-10", "-1", "0", "1e-50", "0.1", "0.5", "1", "1.5", "2", "3",
+  "5", "7", "10", "15", "31", "100", "127", "128", "255", "256", "300", "1000", "32767", "32768", "65535", "65536",
   "16777217", "2147483647", "2147483648", "4294967295", "4294967296", "9007199254740993",
   "9223372036854775807", "9223372036854775808", "18446744073709551615", "18446744073709551616",
   "3.4028235e38", "3.5e38", "1e39", "1e400" >>
@@ -78,7 +78,9 @@ KHi == [k \in IntKinds |->
 \* --------------------------------------------------------------- literals
 \* class: num | bool | string | null | array | object
 \* at   : the point the literal's value sits on ("" when it has no numeric value)
-\* syn  : int | float  (how a num is written; for strings: how the content is written)
+\* syn  : int | float | go (how a num is written; for strings: how the content is written;
+\*        int covers zero-padded decimals such as "010" (text # at); go = Go literal syntax that
+\*        none of the document formats defines: 0x1F, 0b11, 0o17, 1_000)
 \* f32/f64: exact | round  (is the value representable / only approximated by the float kind)
 \* sub  : for strings: plain | num | bool | dur ; ms: milliseconds of a dur string
 \* yaml : the same characters denote the same class of value in a YAML document
@@ -133,7 +135,17 @@ Lits == <<
   \* 61..66  strings with characters that URLs, queries, headers and JSON must escape.
   \* A rune outside ASCII is NAMED <U+XXXX> (TLC prints ASCII only); the driver expands the name.
   St("hello world", "plain"), St("100%", "plain"), St("a+b", "plain"), St("x&y=z?w#v", "plain"),
-  St("<U+4F60><U+597D>", "plain"), St("say \"hi\"", "plain") >>
+  St("<U+4F60><U+597D>", "plain"), St("say \"hi\"", "plain"),
+  \* 67..70  decimal integers written with leading zeros: the value is the DECIMAL reading
+  Lit("010", "string", "10", "int", TRUE, "exact", "exact", "num", 0, TRUE),
+  Lit("0100", "string", "100", "int", TRUE, "exact", "exact", "num", 0, TRUE),
+  Lit("-010", "string", "-10", "int", TRUE, "exact", "exact", "num", 0, TRUE),
+  Lit("007", "string", "7", "int", TRUE, "exact", "exact", "num", 0, TRUE),
+  \* 71..74  Go literal spellings
+  Lit("0x1F", "string", "31", "go", TRUE, "exact", "exact", "num", 0, TRUE),
+  Lit("0b11", "string", "3", "go", TRUE, "exact", "exact", "num", 0, TRUE),
+  Lit("0o17", "string", "15", "go", TRUE, "exact", "exact", "num", 0, TRUE),
+  Lit("1_000", "string", "1000", "go", TRUE, "exact", "exact", "num", 0, TRUE) >>
 
 NLits == Len(Lits)
 LitByText(t) == Lits[CHOOSE i \in 1..NLits : Lits[i].text = t /\ Lits[i].class # "string"]
@@ -190,14 +202,20 @@ Union(o1, o2) ==
 IsMustErr(o) == o.err /\ ~o.ok /\ ~o.any
 
 \* --------------------------------------------------------------- conversion of a present literal
-NumVal(l, k) == IF k \in IntKinds THEN VInt(l.at) ELSE VFloat(l.text)
+NumVal(l, k) == IF k \in IntKinds THEN VInt(l.at) ELSE VFloat(IF l.syn = "int" THEN l.at ELSE l.text)
 
 \* a literal with a numeric value into a numeric kind; grey = the statement leaves acceptance open
+\* Spellings: a zero-padded decimal ("010") may be refused or read as the decimal number it writes
+\* (ten) - never as another number (eight).  A Go-syntax spelling ("0x1F", "1_000") is defined by
+\* none of the document formats: it may be refused or read as the number the spelling denotes in Go
+\* (the statement does not fix the numeric syntax of text values); for float kinds only "no panic".
 NumInto(l, k, grey) ==
-  IF ~Fits(l, k) THEN MustErrW("nofit")   \* never a wrapped / truncated / infinite value
+  IF l.syn = "go" /\ k \in FloatKinds THEN ErrOrAny
+  ELSE IF ~Fits(l, k) THEN MustErrW("nofit")   \* never a wrapped / truncated / infinite value
   ELSE LET o == Must(NumVal(l, k))
            g == \/ grey
                 \/ (k \in IntKinds /\ l.syn = "float")                        \* 1.0, 1e2 into an int
+                \/ (l.syn = "int" /\ l.text # l.at) \/ l.syn = "go"            \* "010", "0x1F"
                 \/ (k \in FloatKinds /\ ~FloatExact(l, k))                    \* 0.1: rounded or refused
                 \/ (k \in {"uint64", "uint"} /\ Lt("9223372036854775807", l.at)) \* upper half of uint64
        IN IF g THEN Weaken(o) ELSE o
@@ -275,7 +293,11 @@ DefaultLit(o) == CHOOSE l \in {Lits[i] : i \in 1..NLits} : l.text = o.def /\ l.c
 
 AllowedNoEnv(k, o, doc, src) ==
   IF doc.d = "absent" THEN
-     IF o.def # "" THEN LET c == ConvText(DefaultLit(o), k) IN IF c.ok THEN Must(c.val) ELSE c
+     IF o.def # "" THEN
+        LET dl == DefaultLit(o)
+            c == ConvText(dl, k)
+        IN \* a default outside the field's own range= / options= is a contradictory tag: either clause may win
+           IF OutsideRange(dl, o) \/ OutsideOptions(dl, o) THEN Weaken(c) ELSE c
      ELSE IF o.optional THEN Must(Zero)
      ELSE MustErrW("required")
   ELSE Constrain(Conv(doc.lit, k, o, src), doc.lit, o)
@@ -287,7 +309,11 @@ AllowedNoEnv(k, o, doc, src) ==
 EnvLit(o) == CHOOSE l \in {Lits[i] : i \in 1..NLits} : l.text = o.env /\ l.class \in {"num", "bool", "string"}
 Allowed(k, o, doc, src) ==
   IF o.env = "" THEN AllowedNoEnv(k, o, doc, src)
-  ELSE LET u == Union(ConvText(EnvLit(o), k), AllowedNoEnv(k, o, doc, src)) IN [u EXCEPT !.err = TRUE]
+  ELSE LET e == EnvLit(o)
+           eo == Constrain(ConvText(e, k), e, o)    \* a value outside options= / range= is never accepted,
+                                                     \* whichever source it came from
+           u == Union(eo, AllowedNoEnv(k, o, doc, src))
+       IN [u EXCEPT !.err = TRUE]
 
 \* --------------------------------------------------------------- containers
 \* slice of k from an array of literals / map[string]k from an object of literals:
@@ -348,6 +374,9 @@ T_OptionalZero(o, doc, a) ==
   (doc.d = "absent" /\ o.optional /\ o.def = "" /\ o.env = "") => (a.ok /\ ~a.err /\ a.val = Zero)
 T_Constraint(o, doc, a) ==
   (doc.d = "lit" /\ o.env = "" /\ (OutsideRange(doc.lit, o) \/ OutsideOptions(doc.lit, o))) => ~a.ok
+T_EnvConstraint(k, o, a) ==                  \* an env value outside range= / options= is never the result
+  (o.env # "" /\ k \in NumKinds /\ (OutsideRange(EnvLit(o), o) \/ OutsideOptions(EnvLit(o), o)))
+     => LET ev == NumVal(EnvLit(o), k) IN (a.ok => (a.val # ev /\ a.alt # ev) \/ ~HasValue(EnvLit(o)))
 T_FitsMonotone(l) ==
   /\ (FitsInt(l, "int8") => FitsInt(l, "int16")) /\ (FitsInt(l, "int16") => FitsInt(l, "int32"))
   /\ (FitsInt(l, "int32") => FitsInt(l, "int64")) /\ (FitsInt(l, "uint8") => FitsInt(l, "uint16"))
